@@ -427,12 +427,18 @@ func main() {
 				a, err := e.Negotiate(o)
 				return err == nil && a.Size() > 0
 			}
+			foreignName := "x-foreign"
 			judge := func(cfg P, list []P, withForeign bool) *explore.Fail {
 				var opts []httphead.Option
 				var isPmd []int
 				for i, p := range list {
 					if withForeign && i == 1 {
-						opts = append(opts, httphead.NewOption("x-foreign", map[string]string{"a": "1"}))
+						opts = append(opts, httphead.NewOption(foreignName, map[string]string{"a": "1"}))
+						isPmd = append(isPmd, -1)
+					}
+					if withForeign && i == 0 && foreignName != "x-foreign" {
+						// another extension whose name merely resembles ours comes first, bare
+						opts = append(opts, httphead.NewOption(foreignName, nil))
 						isPmd = append(isPmd, -1)
 					}
 					opts = append(opts, offerOption(p))
@@ -506,6 +512,49 @@ func main() {
 					}
 				}
 			})
+			// extension names that only resemble ours (another letter case, a prefix, a suffix) belong
+			// to somebody else: they get no answer, are not reported as accepted, and do not stand in
+			// the way of the genuine offer behind them
+			for _, name := range []string{"Permessage-Deflate", "PERMESSAGE-DEFLATE", "permessage-deflat", "permessage-deflate2", "x-permessage-deflate"} {
+				name := name
+				for _, cfg := range cfg36 {
+					for _, a := range rep {
+						for _, b := range rep {
+							cfg, a, b := cfg, a, b
+							t.Do(func() string {
+								return fmt.Sprintf("config%s offers[%s (bare), offer%s, %s; a=1, offer%s]", ps(cfg), name, ps(a), name, ps(b))
+							}, func() *explore.Fail {
+								var opts []httphead.Option
+								opts = append(opts, httphead.NewOption(name, nil), offerOption(a), httphead.NewOption(name, map[string]string{"a": "1"}), offerOption(b))
+								e := &wsflate.Extension{Parameters: cfg}
+								var answered []int
+								for i, o := range opts {
+									ans, err := e.Negotiate(o)
+									if err != nil {
+										return explore.Failf("look-alike-name-error", "offer #%d %q: %v", i, o.Name, err)
+									}
+									if ans.Size() > 0 {
+										if string(ans.Name) != "permessage-deflate" {
+											return explore.Failf("answer-name", "%q", ans.Name)
+										}
+										answered = append(answered, i)
+									}
+								}
+								want := -1
+								if alone(cfg, offerOption(a)) {
+									want = 1
+								} else if alone(cfg, offerOption(b)) {
+									want = 3
+								}
+								if (want < 0 && len(answered) != 0) || (want >= 0 && (len(answered) != 1 || answered[0] != want)) {
+									return explore.Failf("look-alike-extension-name-treated-as-ours", "answered offers %v, the first acceptable permessage-deflate offer is #%d (names: %s, pmd, %s, pmd)", answered, want, name, name)
+								}
+								return nil
+							})
+						}
+					}
+				}
+			}
 			// long lists: N offers the configuration declines (N up to 300), then an acceptable one;
 			// and N declined offers followed by a malformed one (which is still an error)
 			longN := []int{4, 8, 15, 16, 17, 31, 32, 33, 63, 64, 65, 100, 300}
